@@ -57,3 +57,9 @@ Example C18_nonvacuous :
   exchange1 5 [] (mkP false 8 [1]) false KAck (mkI [GPacket other] [] []) = (Fail PTimeout, [], [TWait; TGet (GPacket other); TGet GNone], mkI [] [] [mkP false 8 [1]]) /\
   exchange1 5 [] (mkP false 8 [1]) false KAck (mkI [GPacket ack] [41] []) = (Fail (PInterface 41), [], [], mkI [GPacket ack] [] [mkP false 8 [1]]).
 Proof. repeat split; reflexivity. Qed.
+
+(* the extracted checker (an independent scan of the queue) accepts the model's observation of every exchange *)
+Require Import RP.Glue.Wire RP.Glue.StreamLink RP.Glue.StreamProto RP.Lemmas.GlueLemmas.
+Theorem C18_checker_accepts_model : forall case own cap k multi p t gs ans,
+  exc_split case = Some (own, cap, k, multi, p, t, gs, ans) -> ok_C18 case (run_EXC case) = [].
+Proof. exact ok_C18_accepts_model. Qed.
